@@ -99,8 +99,41 @@ SUPERSEDED = {
 }
 
 
-# round 4: behaviour-preserving refactorings (seeds h, i) — what the first run of the check said about them where it was not silent
+MISSED_FIRST.update({
+    "C03-g": "overflow report shadowed by the close report in receiveSync (closed session: pre-overflow bytes, then a clean PeerClosed) — missed; caught after the 'overflow is reported before the close, on every drained return' clause was added to C03",
+    "C05-g": "the marker the waiting stop() callers test is set outside the critical section that wins the _running CAS — missed (C05-R6 only required a wait on every return); caught after 'the join marker is written in the test-and-set's critical section' was added to C05-R6",
+    "C07-g": "default trust locations loaded in addition to a configured CA — missed; caught after 'SSL_CTX_set_default_verify_paths on the client context only where caFile and caPath are both empty' was added to C07-R1",
+    "C08-g": "reset() rewinds the id counter but keeps the lazily purged heap — missed; caught after C08-R13 (every id-keyed container is emptied where the id counter is rewound, same critical section) was added",
+    "C09-g": "start() spawns the initial workers before it clears the shutdown flag — missed; caught after C09-R11 (the shutdown flag is known false at every unconditional spawn site) was added",
+    "C12-g": "plain set() returns early on identical bytes, before the expiry removal — missed; caught after C12-R12 (a plain write that reports success has removed the key's expiry on every path; set and setBatch agree) was added",
+    "C15-g": "client trailer scan resumes from buf.size(), a mid-line position used as a line start — missed (C15-R6 followed server-side resume positions only); caught after C15-R6 was rewritten over every persisted scan position (a position also used as a record start must be a validated boundary)",
+    "C16-g": "Content-Length catch narrowed to invalid_argument (stoull's out_of_range escapes the I/O thread) — caught by C15-R4 only (other property); C16 now runs the same rule as C16-R8",
+    "C18-g": "client fast path keyed on an empty reassembly buffer delivers a final CONTINUATION under its own opcode — missed; caught after C18-R8 (delivery type = recorded start opcode, 'in progress' never decided by buffer emptiness, server/client tables agree) was added",
+})
+IMPRECISE_FIRST.update({
+    "C01-g": "first caught as 'payload not queued / bytes dropped' (shape); C01-R3 now traces the requeued tail's range to the write's own result and names the by-value capture that holds the stale count",
+    "C06-g": "first caught as 'datagram not delivered exactly once' only because the new cap helper was opaque (and refused by the inventory guard); C06-R9 now reports the cap test that is not confined to the peer-not-found side",
+    "C10-g": "first caught as two 'slot access unbounded' reports (shape); C10-R5 now has an index-cache discipline and reports the cached producer index that resize() does not refresh",
+    "C13-g": "first run ended as a refusal through the anchored local name `depth`; C13-R2 now finds the depth carrier by dataflow and checks the member counter's balance on every successful return",
+    "C14-g": "first run ended as a refusal through anchored local names; C14-R5 now requires every byte of a numeric reference to be consumed (loop form or from_chars with ec AND ptr == end)",
+    "C19-g": "first also reported 'returns a name without the 255-byte test' (an artefact); C19-R7 now decides whether the root octet is in the buffer when the limit is tested (255 vs 254)",
+    "C20-g": "first reported with an additional noisy 'candidate' line; C20-R3 now says that the containment-checked value is only an ancestor of the opened one",
+})
+SUPERSEDED.update({
+    "C15-c": "the chunk-size line parser it changes was rewritten by fix e775508 (a line with CR/LF is malformed), so the patch no longer applies; on the tree before that fix it was caught by C15-R6. The same idea on today's tree is mutants/C15/m22*.diff.",
+    "C17-i": "the keep-or-evict block it restructures was rewritten by fix e37b94d (idle cached connections stay in Sync mode), so the patch no longer applies; evaluated on the tree before that fix: silent with the inventory guard on and off. Its ideas on today's tree are mutants/C17/b05…b09 (all silent).",
+})
+# round 4: behaviour-preserving refactorings (seeds h, i) — what the first run of the check said about them (seeded/round4_first_verdicts.json)
+_R4 = json.load(open(os.path.join(DST, "round4_first_verdicts.json"))) if os.path.exists(os.path.join(DST, "round4_first_verdicts.json")) else {}
 BENIGN_FIRST = {}
+for _sid, _v in _R4.items():
+    if _sid[-1] in "hi" and _v["rc"] != 0:
+        BENIGN_FIRST[_sid] = ("first run: FALSE ALARM (%s)%s" % (", ".join(_v["rules"]), (" — " + _v["note"]) if _v.get("note") else "") if _v["rc"] == 1 else
+                              "first run: refused (%s)" % (_v["broken"][0].split("property=")[-1][:140] if _v["broken"] else "analysis broken"))
+BENIGN_NOW = {
+    "C12-h": "still refused: size() counts through std::count_if with a generic lambda whose body the fact extractor does not emit; everything else in the refactoring is followed",
+    "C16-h": "still refused: C16-R6 finds the close decision through the locals of processHttpRequest (anchored names); the refactoring moves it into two helpers",
+}
 
 
 def sh(cmd, **kw):
@@ -206,7 +239,8 @@ def main():
             "history": MISSED_FIRST.get(sid) or IMPRECISE_FIRST.get(sid) or REFUSED_ONLY.get(sid) or "caught by the first version of the check",
         }
         if benign:
-            meta["history"] = BENIGN_FIRST.get(sid) or "silent on the first run of the check"
+            meta["history"] = (BENIGN_FIRST.get(sid) or "silent on the first run of the check") + ((" — " + BENIGN_NOW[sid]) if sid in BENIGN_NOW else
+                                                                                                        ("; silent after the round-4 rule work (rules follow helpers / derive roles by dataflow)" if sid in BENIGN_FIRST else ""))
             meta["initially_alarmed_or_refused"] = sid in BENIGN_FIRST
             meta["confirmed_by_me"]["how"] = ("tools/verify_seed.sh: scratch git worktree of /repo with the refactoring applied; the tests the agent named rebuilt and run against it; "
                                               "the agent's equivalence argument (equivalence.md) read against the diff; worktree removed afterwards")
